@@ -16,7 +16,7 @@ REQUIRED_THEOREMS = [
     "Cv.C11.matrix_cholesky_eq_slice", "Cv.C11.matrix_forward_eq_slice", "Cv.C11.matrix_backward_eq_slice", "Cv.C11.cholesky_rejects_indefinite_witness",
 ]
 RULE = ("orders 1..32 x {SPD to cond 1e8, symmetric indefinite with positive diagonal (float and integer), dense, "
-        "adversarial pivot columns, extreme power-of-two scale with scaling-invariance pairs, singular PSD B*B^T, sparse SPD (arrowhead, banded, block), integer, singular, rank-deficient, zero leading pivot, permutation matrices, triangular} x "
+        "adversarial pivot columns, extreme power-of-two scale with scaling-invariance pairs, every factorisation at powers of four 4^k (|k| 26..480) with exact factor-scaling pairs, mixed-scale diagonals, singular PSD B*B^T, sparse SPD (arrowhead, banded, block), integer, singular, rank-deficient, zero leading pivot, permutation matrices, triangular} x "
         "{lu, cholesky, det, lu_det, triangular solves, cholesky_solve, lu_solve} in slice and Matrix form, "
         "plus permutation vectors up to length 40 for ipiv_parity; non-trivial = distinct (op, class, order)")
 EXHAUSTIVE = {"quick": False, "thorough": False}
@@ -209,6 +209,63 @@ def strata(rng, tier, lines, cover):
             lines.append("mis_lower %d %d %s" % (n, n, vec(L)))
 
 
+CRATE_SPD4 = [6., 3., 4., 8., 3., 6., 5., 1., 4., 5., 10., 7., 8., 1., 7., 25.]   # test_cholesky of the crate
+SCALE4 = [-26, -30, -50, -100, -250, -480, 50, 250, 480]                       # exponents k of 4^k
+
+
+def _c11w_corpus():
+    """round-10 seed C11w: a perfectly conditioned SPD matrix in tiny units (diagonal <= f64::EPSILON) must still factor,
+    to exactly 2^k times the factor of the unscaled matrix"""
+    return ["chol_pair %s %s" % (vec(CRATE_SPD4), vec([math.ldexp(v, -60) for v in CRATE_SPD4])),
+            "chol_pair %s %s" % (vec(CRATE_SPD4), vec([math.ldexp(v, -200) for v in CRATE_SPD4]))]
+
+
+def scale_strata(rng, tier, lines, cover):
+    """every factorisation at powers of four: 4^k A has Cholesky factor 2^k L(A) exactly, LU factors P, L unchanged and
+    U scaled; plus mixed-scale diagonals"""
+    def cnt(k):
+        cover[k] = cover.get(k, 0) + 1
+
+    for rep in range(1 if tier == "quick" else 4):
+        for n in range(1, 13):
+            k = SCALE4[(n + rep) % len(SCALE4)]
+            k2 = SCALE4[(n + rep + 4) % len(SCALE4)]
+            cnt("scale4:%d" % k)
+            S = rng.choice([H.g_spd, lambda r, m: H.g_diagdom(r, m, True), spd_int, H.g_band_spd])(rng, n)
+            Ss = [math.ldexp(v, 2 * k) for v in S]
+            lines.append("# scale stratum n=%d 4^%d" % (n, k))
+            lines.append("chol_pair %s %s" % (vec(S), vec(Ss)))
+            lines.append("both_chol " + vec(Ss))
+            lines.append("mchol %d %d %s" % (n, n, vec(Ss)))
+            lines.append("chol " + vec([math.ldexp(v, 2 * k2) for v in S]))
+            G = rng.choice([H.g_dense, H.g_int, H.g_diagdom])(rng, n)
+            Gs = [math.ldexp(v, 2 * k) for v in G]
+            lines.append("lu_pair %s %s" % (vec(G), vec(Gs)))
+            lines.append("mdet %d %d %s" % (n, n, vec(Gs)))
+            lines.append("mlu %d %d %s" % (n, n, vec(Gs)))
+            # triangular solves and solves from an explicit factor at that scale
+            b = [math.ldexp(rng.normal(), 2 * k) for _ in range(n)]
+            L = [math.ldexp(v, k) for v in g_lower(rng, n)]
+            U = [L[j * n + i] for i in range(n) for j in range(n)]
+            Lp = [abs(v) if i // n == i % n else v for i, v in enumerate(L)]
+            lines.append("both_tri fwd %s %s" % (vec(L), vec(b)))
+            lines.append("both_tri bwd %s %s" % (vec(U), vec(b)))
+            lines.append("both_tri chol_solve %s %s" % (vec(Lp), vec(b)))
+            piv = rng.shuffle(list(range(n)))
+            f = [math.ldexp(v, 2 * k) if (i // n) <= (i % n) else v for i, v in enumerate(packed_lu(rng, n))]
+            lines.append("mlu_det %d %d %s %d %s" % (n, n, vec(f), n, " ".join(map(str, piv))))
+            lines.append("lu_solve %s %d %s %s" % (vec(f), n, " ".join(map(str, piv)), vec(b)))
+        # mixed-scale diagonals: SPD, diagonal, the factor is the exact square root
+        for d in ([1.0, 1e-20, 1e-36], [1e-36, 1.0, 1e-20], [1e-17], [4.0 ** -30, 1.0], [1e-300, 1e300, 1.0, 2.0 ** -1000],
+                  [rng.loguniform(1e-40, 1e40) for _ in range(rng.randint(2, 8))]):
+            m = len(d)
+            D = [d[i] if i == j else 0.0 for i in range(m) for j in range(m)]
+            cnt("scale4:mixed-diagonal")
+            lines.append("both_chol " + vec(D))
+            lines.append("both_lu " + vec(D))
+            lines.append("mdet %d %d %s" % (m, m, vec(D)))
+
+
 def corpus():
     one, two, z = f2h(1.0), f2h(2.0), f2h(0.0)
     a = "4 %s %s %s %s" % (one, two, two, one)                    # F02: indefinite, positive diagonal
@@ -216,7 +273,7 @@ def corpus():
     c = "16 " + " ".join(f2h(float(v)) for v in cyc)
     return ["chol " + a, "mchol 2 2 " + a, "both_chol " + a, "parity 4 1 2 3 0", "mdet 4 4 " + c,
             "mlu_det 4 4 %s 4 1 2 3 0" % ("16 " + " ".join(f2h(float(i // 4 == i % 4)) for i in range(16))),
-            "both_lu " + c]
+            "both_lu " + c] + _c11w_corpus()
 
 
 def gen(rng, tier):
@@ -308,6 +365,7 @@ def gen(rng, tier):
         cnt("scale:%d" % k)
         lines.append("lu_pair %s %s" % (vec(base), vec([math.ldexp(v, k) for v in base])))
     strata(rng, tier, lines, cover)
+    scale_strata(rng, tier, lines, cover)
     for a in ([4.0, 2.0, 2.0, 1.0], [1.0, 1.0, 1.0, 1.0], [0.0]):   # C11e witnesses: exactly zero last pivot
         lines.append("both_chol " + vec(a))
     z = f2h(0.0)
@@ -538,6 +596,56 @@ def oracle(lines, impl):
                     else:
                         continue
                     break
+        elif op == "chol_pair":
+            A, p = rvec(t, 1)
+            B, _ = rvec(t, p)
+            n = isqrt_exact(len(A))
+            if n is None or len(B) != len(A) or st != "ok" or n == 0:
+                continue
+            key = "chol_pair:n=%d" % n
+            bl = blocks(toks)
+            if len(bl) != 4:
+                fails.append(Failure(i, key, "chol_pair: %d blocks" % len(bl)))
+                continue
+            for (mat, o, tag) in ((A, 0, "unscaled"), (B, 2, "scaled")):
+                cls = sym_class(mat, n)
+                for what, r in (("cholesky", bl[o]), ("Matrix::cholesky", bl[o + 1])):
+                    if cls == "spd":
+                        if r is None:
+                            fails.append(Failure(i, key, "%s rejected the %s positive-definite matrix (order %d, max entry %.3g)" % (what, tag, n, max(abs(v) for v in mat))))
+                        else:
+                            check_chol(fails, i, key, mat, n, r)
+                    elif cls in ("indef", "nonsym") and r is not None:
+                        fails.append(Failure(i, key, "%s accepted a %s matrix that is %s" % (what, tag, cls)))
+                if cls is not None and bl[o] != bl[o + 1]:
+                    fails.append(Failure(i, key, "slice cholesky and Matrix::cholesky differ on the %s matrix (order %d)" % (tag, n)))
+            # exact scaling by a power of four: the factor scales by the exact power of two
+            nz = [(a, b) for a, b in zip(A, B) if a != 0]
+            if not nz or any((a == 0) != (b == 0) for a, b in zip(A, B)) or not finite(A) or not finite(B):
+                continue
+            k2 = math.frexp(nz[0][1])[1] - math.frexp(nz[0][0])[1]
+            if k2 % 2 or any(math.ldexp(a, k2) != b for a, b in zip(A, B)):
+                continue
+            for o, what in ((0, "cholesky"), (1, "Matrix::cholesky")):
+                r0, r1 = bl[o], bl[2 + o]
+                if (r0 is None) != (r1 is None):
+                    fails.append(Failure(i, key, "%s: the verdict changes under exact scaling by 4^%d (%s vs %s, order %d)"
+                                         % (what, k2 // 2, "factor" if r0 else "rejected", "factor" if r1 else "rejected", n)))
+                    continue
+                if r0 is None:
+                    continue
+                f0 = [h2f(x) for x in r0]
+                f1 = [h2f(x) for x in r1]
+                small = min(abs(v) for v in f0 + f1 if v != 0)
+                big = max(abs(v) for v in A + B)
+                if small < 2.0 ** -500 or big > 2.0 ** 1000:
+                    continue      # products of factor entries could be subnormal / overflow: rounding may legitimately differ
+                for q in range(n * n):
+                    e = math.ldexp(f0[q], k2 // 2)
+                    if f1[q] != e:
+                        fails.append(Failure(i, key, "%s: entry %d of the factor of 4^%d * A is %r, expected exactly 2^%d * %r (order %d)"
+                                             % (what, q, k2 // 2, f1[q], k2 // 2, f0[q], n)))
+                        break
         elif op in ("both_chol", "chol", "mchol"):
             A, _ = rvec(t, 1 if op != "mchol" else 3)
             n = isqrt_exact(len(A))
@@ -562,6 +670,14 @@ def oracle(lines, impl):
             else:
                 results = [("Matrix::cholesky", toks[3:] if st == "ok" else None)]
             verdict = exact_chol_verdict(A, n) if n else None
+            if n and finite(A) and all((A[a * n + b] == 0) for a in range(n) for b in range(n) if a != b) and all(A[a * n + a] > 0 for a in range(n)):
+                expd = [f2h(math.sqrt(A[q])) if q // n == q % n else f2h(0.0) for q in range(n * n)]
+                for what, r in results:
+                    if r is None:
+                        fails.append(Failure(i, key, "%s rejected a diagonal matrix with positive diagonal %r" % (what, [A[a * n + a] for a in range(n)][:6])))
+                    elif list(r) != expd:
+                        fails.append(Failure(i, key, "%s of a positive diagonal matrix is not the exact square root of its diagonal" % what))
+                continue
             for what, r in results:
                 if r is not None and finite(A) and len(r) == n * n and any(not (h2f(r[d * n + d]) > 0) for d in range(n)):
                     fails.append(Failure(i, key, "%s returned a factor whose diagonal is not positive (order %d)" % (what, n)))
@@ -836,3 +952,9 @@ TRUSTED = [
     "numpy eigenvalue estimate, used only to classify generated symmetric matrices as clearly definite / clearly indefinite (integer matrices: confirmed exactly by Sylvester minors or by an exact rational Cholesky sweep)",
 ]
 ASSUMPTIONS = ["default cargo features (no blas/lapack)", "matrix element count < 2^24"]
+
+# --- round 10 (property owner): scale equivariance of the Cholesky sweep
+PROOF_MODULES = PROOF_MODULES + [m for m in ['Compute.Props.C11Scale'] if m not in PROOF_MODULES]
+REQUIRED_THEOREMS = REQUIRED_THEOREMS + [t for t in [
+    'Cv.C11Scale.cholLoops_scale', 'Cv.C11Scale.cholLoops_scale_none_iff', 'Cv.C11Scale.cholCell_sc',
+    'Cv.C11Scale.cholLoops_scale_real'] if t not in REQUIRED_THEOREMS]
